@@ -148,6 +148,7 @@ class TransitWorld:
         CTX.client = "transit"
         self.net = Net()
         self.net.linger_reads = bool(cfg.get("linger_reads"))
+        self.set_order = cfg.get("set_order", "ins")
         self.rs = SimReactor(self.net, S_HOST)
         self.rr = SimReactor(self.net, R_HOST)
         self.rx = SimReactor(self.net, X_HOST)
